@@ -918,7 +918,7 @@ fn meta_queries() -> Vec<(MetaQ, String)> {
          "{ VertexType { name @output is_interface @output } }".to_string()),
         (MetaQ { name: "implements", text: "", cols: &["name", "iname"], json_col: None, model: "q_implements", spec: Some("spec_implements") },
          "{ VertexType { name @output implements { iname: name @output } } }".to_string()),
-        (MetaQ { name: "implementer", text: "", cols: &["name", "iname"], json_col: None, model: "q_implementer", spec: Some("spec_implementer_actual") },
+        (MetaQ { name: "implementer", text: "", cols: &["name", "iname"], json_col: None, model: "q_implementer", spec: Some("spec_implementer_documented") },
          "{ VertexType { name @output implementer { iname: name @output } } }".to_string()),
         (MetaQ { name: "properties", text: "", cols: &["name", "pname", "ptype"], json_col: None, model: "q_properties", spec: Some("spec_properties") },
          "{ VertexType { name @output property { pname: name @output ptype: type @output } } }".to_string()),
@@ -1152,21 +1152,15 @@ fn c20_schema(out: &mut Out, k: usize, p: &Prepared, meta: &Schema, oracle_only:
         let want = direct_expected(&fx, q.name);
         if real != want {
             if q.name == "implementer" {
-                // F18: are the surplus rows exactly the (t, t) self rows ?
-                let wantset: BTreeSet<&String> = want.iter().collect();
-                let realset: BTreeSet<&String> = real.iter().collect();
-                let surplus: Vec<&String> = real.iter().filter(|r| !wantset.contains(r)).collect();
-                let missing: Vec<&String> = want.iter().filter(|r| !realset.contains(r)).collect();
+                // F18 (repaired by /repo 00e79dd): a type listed as its own implementer, or any implementer of a
+                // non-interface type, is a plain violation of the documented relation
                 let selfrows: BTreeSet<String> = fx.visible().iter().map(|t| format!("{},{}", rs(&t.name), rs(&t.name))).collect();
-                let only_self = missing.is_empty() && surplus.iter().all(|r| selfrows.contains(*r)) && surplus.len() == selfrows.len();
-                let objects: Vec<String> = fx.visible().iter().filter(|t| !t.iface).map(|t| t.name.clone()).collect();
-                let detail = json!({"surplus_rows": surplus.len(), "object_types_with_implementers": objects, "documented": "If this is not an interface type, this edge is guaranteed to be empty."});
-                if only_self {
-                    out.count("implementer:self-rows");
-                    out.oracle_fail_class("K-implementer-includes-self", "the implementer edge returns the type itself (also for object types)", input(q.name), detail);
-                } else {
-                    out.oracle_fail("implementer rows differ from the documented subtypes by more than the self rows", input(q.name), json!({"real": real, "documented": want}));
-                }
+                let self_listed: Vec<&String> = real.iter().filter(|r| selfrows.contains(*r)).collect();
+                out.oracle_fail(
+                    "implementer rows differ from the documented subtypes",
+                    input(q.name),
+                    json!({"real": real, "documented": want, "self_rows": self_listed, "doc": "Subtypes of this vertex type. If this is not an interface type, this edge is guaranteed to be empty."}),
+                );
             } else {
                 out.oracle_fail("introspection rows differ from the schema's contents", input(q.name), json!({"real": real, "expected": want}));
             }
@@ -1177,10 +1171,11 @@ fn c20_schema(out: &mut Out, k: usize, p: &Prepared, meta: &Schema, oracle_only:
             if let Some(spec) = q.spec {
                 out.add_spec(Case { input: input(q.name), coq: format!("show_spec ({spec} s{k})"), imp: joined(&real), nontrivial: false, key: format!("spec:{key}") }, None);
             }
-            if q.name == "implementer" && !real.is_empty() {
+            if q.name == "implementer" {
+                // the relation the code computes (C20_intro_implementer_exact); `q.spec` is the documented one
                 out.add_spec(
-                    Case { input: input("implementer (documented)"), coq: format!("show_spec (spec_implementer_documented s{k})"), imp: joined(&real), nontrivial: false, key: format!("specdoc:{key}") },
-                    Some("K-implementer-includes-self".to_string()),
+                    Case { input: input("implementer (actual)"), coq: format!("show_spec (spec_implementer_actual s{k})"), imp: joined(&real), nontrivial: false, key: format!("specact:{key}") },
+                    None,
                 );
             }
         }
